@@ -10,6 +10,9 @@ const SERVICES: [&str; 5] = ["Players", "ReplicatedStorage", "RunService", "Work
 pub struct ReqOpts {
     pub ignores: bool,
     pub regions: bool,
+    /// block comments in front of `local` on the statement's own line (the formatter moves them onto a line of their
+    /// own, which splits the group on the next run)
+    pub inline_comments: bool,
 }
 
 pub fn generate(t: &mut Tape, syn: Syntax, o: &ReqOpts, labels: &mut Vec<&'static str>) -> String {
@@ -42,7 +45,7 @@ pub fn generate(t: &mut Tape, syn: Syntax, o: &ReqOpts, labels: &mut Vec<&'stati
                 cid += 1;
                 out.push_str(&format!("--[[ block {cid} ]]\n"));
             }
-            6 => {
+            6 if o.inline_comments => {
                 // on the statement's own line
                 cid += 1;
                 out.push_str(&format!("--[[ i{cid} ]] "));
